@@ -1267,8 +1267,12 @@ pub fn check(case: &Case) -> CheckResult {
                     out.notices.len()
                 );
             }
+            // the two known findings (LoadState / SoftStop scattered without a timeout) only exist in `strict`
+            // cases, where the worker behaviours that trigger them are not replaced: they get a signature of
+            // their own, so that any other unanswered LoadState or stop is still reported
+            let known_shape = if case.strict && class == VerbClass::LoadState { ":worker-never-answers" } else { "" };
             fail!(
-                format!("C09/no-final-answer:{}", class.name()),
+                format!("C09/no-final-answer:{}{known_shape}", class.name()),
                 "{}: {} ({} processing notices seen)",
                 describe(p),
                 out.broken.clone().unwrap_or_default(),
@@ -1461,7 +1465,7 @@ pub fn check(case: &Case) -> CheckResult {
         .collect();
     let stop_bad = stop_parts.iter().any(|x| matches!(x, WorkerPart::Bad(_)));
     if stop_out.finals.is_empty() {
-        fail!("C09/no-final-answer:stop", "{stop_desc}: {} ({stop_parts:?})", stop_out.broken.clone().unwrap_or_default());
+        fail!(format!("C09/no-final-answer:stop{}", if case.strict { ":worker-closes-channel" } else { "" }), "{stop_desc}: {} ({stop_parts:?})", stop_out.broken.clone().unwrap_or_default());
     }
     if stop_out.finals.len() > 1 {
         fail!(
@@ -1543,7 +1547,7 @@ pub fn run(args: &Args) -> i32 {
     ev.assume("Status and QueryClustersHashes carry no content, so only client 0 sends Status and only client 1 sends QueryClustersHashes: the fake workers attribute them by arrival order");
     ev.assume("Status is judged on its per-worker content (Ok + a truthful run state per worker is accepted), not on Ok/Failure alone, unless the case sets strict_status");
     ev.assume("timing margins: in-time answers leave within 80 ms (+ scheduling; a request whose answer left > 600 ms after it was sent is not judged), late ones at >= 2.5 s, worker timeout 1 s");
-    ev.assume("two known findings are excluded by construction (load_state and SoftStop scatter without a timeout): on a LoadState a worker always sends a terminal answer (Silent / LateOk / ProcessingOnly / UnknownId / CloseChannel are played as Failure), a worker does not close its channel on any request while another client sends a LoadState (played as Failure), nor on SoftStop (played as Ok); the replaced behaviours are counted in excluded_known; cases with `strict` (regression files only) play them and fail with C09/no-final-answer:loadstate / C09/no-final-answer:stop");
+    ev.assume("two known findings are excluded by construction (load_state and SoftStop scatter without a timeout): on a LoadState a worker always sends a terminal answer (Silent / LateOk / ProcessingOnly / UnknownId / CloseChannel are played as Failure), a worker does not close its channel on any request while another client sends a LoadState (played as Failure), nor on SoftStop (played as Ok); the replaced behaviours are counted in excluded_known; cases with `strict` (regression files only) play them and fail with C09/no-final-answer:loadstate:worker-never-answers / C09/no-final-answer:stop:worker-closes-channel");
     if args.replay.is_none() {
         ev.floor("hub", "concurrent_clients", 0.4);
         ev.floor("hub", "verdict:failure", 0.15);
